@@ -187,3 +187,100 @@ def maxlen_stage(rep, ctx):
     rep.cov['evaluations'] = rep.cov.get('evaluations', 0) + len(cases)
     rep.cov['rule'] += ('. Startup stage: %d command lines of the real main() of iodine.c mixing -M (in and out of 10..255, repeated) with the '
                         'other options in every order: the limit handed to client_set_hostname_maxlen is -M clamped to 10..255, else 255' % len(cases))
+
+
+# ---- -L / -I / -m / -r / -T / -O: what the user forces reaches client_handshake() as documented (C11) -------------------------
+
+QTYPE_NAMES = [b'NULL', b'PRIVATE', b'TXT', b'SRV', b'MX', b'CNAME', b'A']
+
+
+def doc_settings(seq):
+    """the usage text, applied in command-line order: (lazy, selecttimeout, raw, autofrag, fragsize) or None when refused"""
+    lazy, st, raw, autofrag, frag = 1, 4, 1, 1, 3072
+    for o, v in seq:
+        if o == 'L':
+            lazy = 1 if v > 1 else (0 if v < 0 else v)
+            if lazy == 0:
+                st = 1
+        elif o == 'I':
+            st = 1 if v < 1 else v
+        elif o == 'm':
+            autofrag, frag = 0, v
+        elif o == 'r':
+            raw = 0
+    if not 1 <= frag <= 65535:
+        return None
+    return dict(lazy=lazy, selecttimeout=st, raw=raw, autofrag=autofrag, fragsize=frag)
+
+
+def settings_stage(rep, ctx):
+    if 'climain' not in ctx.exe:
+        return
+    rng = vlib.rng_for(rep.seed, 'c11-main')
+    n = 150 if rep.tier == 'quick' else 1500
+    cases = []
+    for k in range(n):
+        seq = []
+        for _ in range(rng.randrange(0, 5)):
+            o = rng.choice('LLIImmr')
+            v = {'L': rng.choice([0, 1, 2, -1, 5]), 'I': rng.choice([0, 1, 2, 4, 10, -3, 60]),
+                 'm': rng.choice([0, 1, 2, 100, 200, 1200, 3072, 65535, 65536, -1, 70000]), 'r': 0}[o]
+            seq.append((o, v))
+        args = [b'-f', b'-P', b'pw']
+        qt = None
+        if rng.randrange(3) == 0:
+            qt = rng.choice(QTYPE_NAMES + [b'null', b'Txt', b'cname', b'AAAA', b'NS', b'', b'TXTX', b'a'])
+            args += [b'-T', qt]
+        oenc = None
+        if rng.randrange(3) == 0:
+            oenc = rng.choice([b'base32', b'Base64', b'base64u', b'BASE128', b'raw', b'nonsense'])
+            args += [b'-O', oenc]
+        for o, v in seq:
+            args += [b'-r'] if o == 'r' else [('-' + o).encode(), str(v).encode()]
+        cases.append((args + [b'--', b'127.0.0.1', b't.example.com'], seq, qt, oenc))
+    lines = [aline(a) for a, _, _, _ in cases]
+    rc, out, err = vlib.parallel_run_cases(ctx.exe['climain'], lines, ctx.work, 'settings-main')
+    if rc != 0:
+        ctx.broken.append(('impl-crash', 'main() harness exited with %d: %s' % (rc, err[-300:])))
+    mod = None
+    ok, model, lg = vlib.build_model_driver('C19')
+    if ok:
+        ml = ['CS ' + ' '.join('r' if o == 'r' else '%s:%d' % (o, v) for o, v in seq) for _, seq, _, _ in cases]
+        rcm, mod, errm = vlib.parallel_run_cases(model, [x.rstrip() for x in ml], ctx.work, 'settings-model')
+    okc = 0
+    for k, ((a, seq, qt, oenc), l, o) in enumerate(zip(cases, lines, out)):
+        want = doc_settings(seq)
+        if qt is not None and qt.upper() not in QTYPE_NAMES:
+            want = None                 # "-T: NULL, PRIVATE, TXT, SRV, MX, CNAME, A" -- anything else is refused
+        f = fields(o)
+        cmd = b' '.join(a).decode('latin1')
+        if (f is None) != (want is None):
+            rep.add_violation('startup:settings:%s' % ('accepted' if f else 'refused'), 'iodine %s: main() %s this command line, the usage text %s it' % (
+                cmd, 'accepts' if f else 'refuses', 'refuses' if f else 'accepts'), dict(kind='input', driver='iodine-main', case=l, observed=o, expected=str(want)))
+            break
+        if f is not None:
+            got = {k2: int(f.get(k2, -99)) for k2 in want}
+            if got != want:
+                rep.add_violation('startup:settings', 'iodine %s: client_handshake() is called with %s, the options ask for %s' % (cmd, got, want),
+                                  dict(kind='input', driver='iodine-main', case=l, observed=o, expected=str(want)))
+                break
+            if qt is not None and f.get('qtype') != hexs(qt):
+                rep.add_violation('startup:settings:qtype', 'iodine %s: -T %r does not reach client_set_qtype unchanged (%s)' % (cmd, qt, f.get('qtype')),
+                                  dict(kind='input', driver='iodine-main', case=l, observed=o))
+                break
+            if oenc is not None and f.get('downenc') != hexs(oenc):
+                rep.add_violation('startup:settings:downenc', 'iodine %s: -O %r does not reach client_set_downenc unchanged (%s)' % (cmd, oenc, f.get('downenc')),
+                                  dict(kind='input', driver='iodine-main', case=l, observed=o))
+                break
+        if mod is not None and k < len(mod) and not (qt is not None and qt.upper() not in QTYPE_NAMES):
+            mw = 'REJECT' if doc_settings(seq) is None else ' '.join('%s=%d' % (k2, doc_settings(seq)[k2]) for k2 in ('lazy', 'selecttimeout', 'raw', 'autofrag', 'fragsize'))
+            if mod[k] != mw:
+                ctx.broken.append(('correspondence', 'settings stage: model Startup.csettings_of gives %r for %s, the documented settings are %r' % (mod[k], seq, mw)))
+                mod = None
+        okc += 1
+    rep.cov['startup_settings'] = dict(command_lines=len(cases), as_documented=okc)
+    rep.cov['evaluations'] = rep.cov.get('evaluations', 0) + len(cases)
+    rep.cov['rule'] += ('. Settings stage: %d command lines of the real main() of iodine.c with -L / -I / -m / -r in every order and value (in and out '
+                        'of range), -T (valid, other case, invalid names), -O: lazy mode, select time-out, raw mode, fragment-size probing and size as '
+                        'client_handshake() receives them, and the -T / -O strings as the client receives them, are what the usage text says; same as '
+                        'Startup.csettings_of' % len(cases))
